@@ -36,8 +36,19 @@ def objective(r, m):
     ws = [[r.uniform(-3, 3) for _ in range(8)] for _ in range(m)]
     scale = r.choice([1.0, 1.0, 1e-5, 1e3, 123456.789])
 
+    # what user objectives really return: a list of Python floats, numpy scalars, a numpy array, a tuple
+    shape = r.choice(["list", "list", "np_scalars", "ndarray", "tuple"])
+
     def fn(x):
-        return [scale * (sum(w * v for w, v in zip(ws[j], x)) + 0.1234567891234 * j + sum(v * v for v in x)) for j in range(m)]
+        out = [scale * (sum(w * v for w, v in zip(ws[j], x)) + 0.1234567891234 * j + sum(v * v for v in x)) for j in range(m)]
+        if shape == "np_scalars":
+            return [np.float64(v) for v in out]
+        if shape == "ndarray":
+            return np.array(out, dtype=float)
+        if shape == "tuple":
+            return tuple(out)
+        return out
+    fn.shape = shape
     return fn
 
 
